@@ -106,6 +106,7 @@ void World::exec_op(const Op &op) {
 		c.rdcap = (size_t)op.a.getd("rdcap", 0); c.wcap = (size_t)op.a.getd("wcap", 0); c.space = (int64_t)op.a.getd("space", -1);
 		const JV *pol = op.a.get("policy"); if (pol) c.policy = *pol;
 		c.no_expect = op.a.getb("noexpect"); c.faulty = op.a.getb("faulty");
+		if (const JV *cf = op.a.get("cfgfail")) { c.cfg_fail_at = (int)cf->getd("n", 1); c.cfg_fail_errno = (int)cf->getd("errno", ENOBUFS); c.no_expect = true; c.policy.put("maydrop", JV::boolean(true)); }
 		std::string tr = c.transport == "ws" ? "ws" : c.transport == "uds" ? "uds" : "raw";
 		KFd *l = find_listener(tr, c.origin_ip);
 		clients.push_back(c); plan2client[op.c] = c.idx;
